@@ -313,6 +313,8 @@ func main() {
 		os.Exit(runReplayFile(os.Args[2]))
 	case "selftest":
 		os.Exit(runSelftest(os.Args[2:]))
+	case "sweep":
+		os.Exit(runSweep(os.Args[2:]))
 	default:
 		usage()
 	}
